@@ -166,6 +166,8 @@ func (acl *ACL) SetUser(cmd []string) error {
 			if err := user.UpdateUser(cmd); err != nil {
 				return err
 			} else {
+				// Keep the stored rules in the same normal form a newly created or loaded user has.
+				user.Normalise()
 				acl.CompileGlobs()
 				return nil
 			}
